@@ -437,6 +437,8 @@ func (p *parser) parseForExpression() ast.Expression {
 	}
 
 	ln := p.curToken.LineNumber
+	outerInForBlock := p.inForBlock
+	defer func() { p.inForBlock = outerInForBlock }()
 	p.inForBlock = true
 	s := []string{}
 
@@ -487,8 +489,6 @@ func (p *parser) parseForExpression() ast.Expression {
 	if p.curTokenIs(token.RBRACE) {
 		p.nextToken()
 	}
-
-	p.inForBlock = false
 
 	return expression
 }
@@ -596,6 +596,8 @@ func (p *parser) parseFunctionLiteral() ast.Expression {
 	}
 
 	lit.Parameters = p.parseFunctionParameters()
+	outerInForBlock := p.inForBlock
+	defer func() { p.inForBlock = outerInForBlock }()
 	p.inForBlock = false
 
 	if !p.expectPeek(token.LBRACE) {
